@@ -244,8 +244,10 @@ structure Flags where
                   -- (region of known finding C05-brace-override-keeps-old)
   xover : Bool    -- an initializer for a subobject that lies inside a struct/union which an earlier initializer of the same
                   -- list initialised with an expression of struct/union type (6.7.9p13 followed by p19)
-  wide : Bool     -- a GNU range designator `[a ... b]` with a < b was used (no C11 semantics; chibicc re-parses the
-                  -- initializer once per designated element, the specification stores one initializer in every element)
+  wide : Bool     -- a GNU range designator `[a ... b]` with a < b whose initializer does not initialise each designated element
+                  -- as a whole: a further designator follows the range, or brace elision descends into the element (no C11
+                  -- semantics; chibicc parses the initializer once per designated element, so a continuation lands in every
+                  -- element, the specification - gcc - stores one initializer in every element and continues after the last)
   deriving DecidableEq, Repr, Inhabited
 
 def Flags.none : Flags := ⟨false, false, false⟩
@@ -340,6 +342,12 @@ def defaultMember (t : Ty) (o : Init) : Init :=
     | none => o
   | _, _ => o
 
+/-- the designated subobjects are the elements `[a] … [b]` of one array (the range designator is the last designator) -/
+def siblings (paths : List (List Nat)) : Bool :=
+  match paths with
+  | p0 :: _ => paths.all (fun q => q.dropLast == p0.dropLast)
+  | [] => true
+
 /-- the designation of one initializer of a list (p17): a designator list sets the cursor, otherwise the cursor stands -/
 def pathsOf (ty : Ty) (top : Bool) (cur : Option (List Nat)) (toks : List ITok) : Except Fail (List (List Nat) × List ITok) :=
   if isDesg toks then desigPaths ty top (toks.length + 1) [[]] toks
@@ -361,7 +369,7 @@ def initItemWith (rec : Ty → Bool → Init → Option (List Nat) → List ITok
       let t := if growable ty top p0 then (match t with | .array e _ => Ty.inc e | t => t) else t
       let sub ← rec t false (braceStart t) (firstCursor t) inner true Flags.none
       let subObj := defaultMember t (unflex sub.obj)
-      let fl := (fl.join ⟨paths.any (touched obj), paths.any (exprAbove obj), decide (paths.length > 1)⟩).join sub.fl
+      let fl := (fl.join ⟨paths.any (touched obj), paths.any (exprAbove obj), decide (paths.length > 1) && !siblings paths⟩).join sub.fl
       let obj ← paths.foldlM (fun o p => modifyAt ty top (fun _ _ => pure subObj) ty [] p o) obj
       rec ty top obj (next ty top (paths.getLast!.reverse)) sub.rest false fl
     | tok :: r => do
@@ -370,7 +378,8 @@ def initItemWith (rec : Ty → Bool → Init → Option (List Nat) → List ITok
       let isStr := match tok with | .str .. => true | _ => false
       let fl := fl.join ⟨(isStr && targets.any (fun p =>
             match subTy ty p with | some (.scalar ..) => false | _ => touched obj p))
-          || targets.any (switchesUnion obj), targets.any (exprAbove obj), decide (paths.length > 1)⟩
+          || targets.any (switchesUnion obj), targets.any (exprAbove obj),
+          decide (paths.length > 1) && !(siblings paths && targets == paths)⟩
       let obj ← targets.foldlM (fun o p => modifyAt ty top (storeTok ty top tok p) ty [] p o) obj
       rec ty top obj (next ty top (targets.getLast!.reverse)) r false fl
     | [] => .error (.diag "expected an expression")
@@ -394,7 +403,8 @@ def initList : Nat → Ty → Bool → Init → Option (List Nat) → List ITok 
 def initFull (ty : Ty) (toks : List ITok) : Except Fail Result :=
   match toks with
   | .lbrace :: r => do
-    let res ← initList (toks.length + 2) ty true (newInit ty true) (firstCursor ty) r true Flags.none
+    -- the object starts as zero (an array of unknown bound: without elements)
+    let res ← initList (toks.length + 2) ty true (unflex (newInit ty true)) (firstCursor ty) r true Flags.none
     pure { res with obj := defaultMember ty (unflex res.obj) }
   | tok :: r =>
     -- p11 scalar, p13 struct-typed expression, p14/p15 string literal for a character array; anything else needs braces (p16)
@@ -426,10 +436,30 @@ def AggExprOverride (ty : Ty) (toks : List ITok) : Bool :=
   | .ok r => r.fl.xover
   | .error _ => false
 
-/-- region: a GNU range designator over more than one element -/
+/-- region: a GNU range designator over more than one element that is followed by a further designator or by an initializer
+    with elided braces -/
 def WideRange (ty : Ty) (toks : List ITok) : Bool :=
   match initFull ty toks with
   | .ok r => r.fl.wide
   | .error _ => false
+
+/-! ### the declared types for which parser = specification is proved (Props/C05.lean, `C05_parse_spec_partial`) -/
+
+mutual
+  def subOk : Ty → Bool
+    | .scalar _ _ => true
+    | .array e _ => subOk e
+    | .inc _ => false
+    | .struct ms _ fl => !fl && subOkMs ms
+    | .union ms _ fl => !fl && subOkMs ms && (nextNamed ms ms.length 0).isSome
+  def subOkMs : Members → Bool
+    | [] => true
+    | (_, t) :: r => subOk t && subOkMs r
+end
+
+/-- the declared types covered: no flexible array member, an array of unknown bound only outermost, unions have a named member -/
+def tyOk : Ty → Bool
+  | .inc e => subOk e
+  | t => subOk t
 
 end ChibiVerif.InitSpec
